@@ -1029,6 +1029,391 @@ do_wstx(char **tok)
 	free(j.bl);
 }
 
+// ------------------------------------------------------------ C11 sessions
+#include <sys/resource.h>
+static double
+cpu_ms(void)
+{
+	struct rusage ru;
+	getrusage(RUSAGE_SELF, &ru);
+	return (ru.ru_utime.tv_sec + ru.ru_stime.tv_sec) * 1000.0 + (ru.ru_utime.tv_usec + ru.ru_stime.tv_usec) / 1000.0;
+}
+
+static int
+single_pipe_proto(const char *proto)
+{
+	return strncmp(proto, "pair", 4) == 0;
+}
+
+// a listening raw socket kept open so that a dialing nng socket can reconnect
+typedef struct {
+	conn c;
+	struct sockaddr_in tcp_sa; // role l, tcp: where nng listens
+	int  lfd;           // role d: the raw listener
+	nng_listener l;     // sfd: the socket:// listener (further fds can be added)
+	const char *tran;
+	char        role;
+} sess;
+
+static int
+sess_attach(sess *x, const char *tran, char role)
+{
+	int rv;
+	x->lfd  = -1;
+	x->tran = tran;
+	x->role = role;
+	x->c.fd = -1;
+	x->c.nngfd = -1;
+	x->c.path[0] = 0;
+	if (strcmp(tran, "sfd") == 0) {
+		int fds[2];
+		if (socketpair(AF_UNIX, SOCK_STREAM, 0, fds) != 0) return -errno;
+		if ((rv = nng_listener_create(&x->l, x->c.sock, "socket://")) != 0) return rv;
+		if ((rv = nng_listener_start(x->l, 0)) != 0) return rv;
+		if ((rv = nng_listener_set_int(x->l, NNG_OPT_SOCKET_FD, fds[0])) != 0) return rv;
+		x->c.fd = fds[1];
+		return 0;
+	}
+	if (role == 'l') {
+		rv = conn_attach(&x->c, tran, role, 0);
+		if (rv == 0 && strcmp(tran, "tcp") == 0) {
+			socklen_t sl = sizeof(x->tcp_sa);
+			getpeername(x->c.fd, (struct sockaddr *) &x->tcp_sa, &sl);
+		}
+		return rv;
+	}
+	// role d: like conn_attach but the listening descriptor stays open
+	if (strcmp(tran, "tcp") == 0) {
+		struct sockaddr_in sa = { .sin_family = AF_INET };
+		socklen_t          sl = sizeof(sa);
+		char               url[64];
+		sa.sin_addr.s_addr    = htonl(INADDR_LOOPBACK);
+		x->lfd                = socket(AF_INET, SOCK_STREAM, 0);
+		if (bind(x->lfd, (struct sockaddr *) &sa, sizeof(sa)) != 0 || listen(x->lfd, 4) != 0) return -errno;
+		getsockname(x->lfd, (struct sockaddr *) &sa, &sl);
+		snprintf(url, sizeof(url), "tcp://127.0.0.1:%d", ntohs(sa.sin_port));
+		nng_dialer d;
+		if ((rv = nng_dialer_create(&d, x->c.sock, url)) != 0) return rv;
+		nng_dialer_set_ms(d, NNG_OPT_RECONNMINT, 20);
+		nng_dialer_set_ms(d, NNG_OPT_RECONNMAXT, 20);
+		if ((rv = nng_dialer_start(d, NNG_FLAG_NONBLOCK)) != 0) return rv;
+	} else {
+		struct sockaddr_un su = { .sun_family = AF_UNIX };
+		char               url[160];
+		snprintf(x->c.path, sizeof(x->c.path), "/tmp/nngv_c11_%d_%d.sock", (int) getpid(), ++g_serial);
+		unlink(x->c.path);
+		strcpy(su.sun_path, x->c.path);
+		snprintf(url, sizeof(url), "ipc://%s", x->c.path);
+		x->lfd = socket(AF_UNIX, SOCK_STREAM, 0);
+		if (bind(x->lfd, (struct sockaddr *) &su, sizeof(su)) != 0 || listen(x->lfd, 4) != 0) return -errno;
+		nng_dialer d;
+		if ((rv = nng_dialer_create(&d, x->c.sock, url)) != 0) return rv;
+		nng_dialer_set_ms(d, NNG_OPT_RECONNMINT, 20);
+		nng_dialer_set_ms(d, NNG_OPT_RECONNMAXT, 20);
+		if ((rv = nng_dialer_start(d, NNG_FLAG_NONBLOCK)) != 0) return rv;
+	}
+	struct pollfd pfd = { .fd = x->lfd, .events = POLLIN };
+	if (poll(&pfd, 1, 3000) <= 0) return -1002;
+	x->c.fd = accept(x->lfd, NULL, NULL);
+	if (strcmp(tran, "tcp") == 0) {
+		int one = 1;
+		setsockopt(x->c.fd, IPPROTO_TCP, TCP_NODELAY, &one, sizeof(one));
+	}
+	return x->c.fd >= 0 ? 0 : -errno;
+}
+
+// a further, well-behaved connection to the same endpoint; returns its raw fd
+static int
+sess_second(sess *x)
+{
+	if (strcmp(x->tran, "sfd") == 0) {
+		int fds[2];
+		if (socketpair(AF_UNIX, SOCK_STREAM, 0, fds) != 0) return -1;
+		if (nng_listener_set_int(x->l, NNG_OPT_SOCKET_FD, fds[0]) != 0) {
+			close(fds[0]);
+			close(fds[1]);
+			return -1;
+		}
+		return fds[1];
+	}
+	if (x->role == 'd') {
+		struct pollfd pfd = { .fd = x->lfd, .events = POLLIN };
+		if (poll(&pfd, 1, 2500) <= 0) return -1;
+		return accept(x->lfd, NULL, NULL);
+	}
+	// role l: connect again to where the first connection went
+	if (strcmp(x->tran, "tcp") == 0) {
+		struct sockaddr_in sa = x->tcp_sa;
+		int                one = 1;
+		int fd = socket(AF_INET, SOCK_STREAM, 0);
+		setsockopt(fd, IPPROTO_TCP, TCP_NODELAY, &one, sizeof(one));
+		if (connect(fd, (struct sockaddr *) &sa, sizeof(sa)) != 0) {
+			close(fd);
+			return -1;
+		}
+		return fd;
+	} else {
+		struct sockaddr_un su = { .sun_family = AF_UNIX };
+		strcpy(su.sun_path, x->c.path);
+		int fd = socket(AF_UNIX, SOCK_STREAM, 0);
+		if (connect(fd, (struct sockaddr *) &su, sizeof(su)) != 0) {
+			close(fd);
+			return -1;
+		}
+		return fd;
+	}
+}
+
+// sess <tran> <role> <proto> <rcvmax> <streamhex> <cuts> <flags> <ctlhex|-> <nexp> <self> <peer>
+//   streamhex: everything the hostile peer sends, negotiation bytes included
+//   flags: c = half-close after the last byte, r = reset (SO_LINGER 0) after
+//          the last byte, w = wait to see whether nng closes the connection
+//   ctlhex: wire payload of a message sent over a second, well-behaved
+//          connection afterwards ("-" = no control connection); it must be
+//          delivered (or, for protocols that deliver nothing unsolicited, the
+//          negotiation must complete)
+static void
+do_sess(char **tok)
+{
+	sess        x;
+	const char *tran = tok[1], *proto = tok[3];
+	char        role   = tok[2][0];
+	size_t      rcvmax = strtoull(tok[4], NULL, 10);
+	size_t      sl, cl, cuts[256];
+	uint8_t    *st  = unhex(tok[5], &sl);
+	int         nc  = parse_list(tok[6], cuts, 256);
+	const char *fl  = tok[7];
+	uint8_t    *ctl = unhex(tok[8], &cl);
+	int         doctl = strcmp(tok[8], "-") != 0;
+	int         nexp  = atoi(tok[9]);
+	unsigned    self  = (unsigned) atoi(tok[10]), peer = (unsigned) atoi(tok[11]);
+	int         rv, nrx = 0, rawhdr;
+	double      cpu0 = cpu_ms(), t0 = now_ms();
+	(void) self;
+
+	if ((rv = open_proto(proto, &x.c.sock)) != 0) {
+		printf("fail open rv=%d\n", rv);
+		goto out;
+	}
+	rawhdr = strcmp(proto, "xrep") == 0 || strcmp(proto, "xrespondent") == 0;
+	nng_socket_set_size(x.c.sock, NNG_OPT_RECVMAXSZ, rcvmax);
+	nng_socket_set_ms(x.c.sock, NNG_OPT_RECVTIMEO, 500);
+	if ((rv = sess_attach(&x, tran, role)) != 0) {
+		printf("fail attach rv=%d\n", rv);
+		if (x.lfd >= 0) close(x.lfd);
+		conn_close(&x.c);
+		goto out;
+	}
+	{
+		size_t wr = raw_write_cut(x.c.fd, st, sl, cuts, nc);
+		if (wr != sl) printf("diag short_write=%zu\n", wr);
+	}
+	if (strchr(fl, 'c')) shutdown(x.c.fd, SHUT_WR);
+	if (strchr(fl, 'r')) {
+		struct linger lg = { .l_onoff = 1, .l_linger = 0 };
+		setsockopt(x.c.fd, SOL_SOCKET, SO_LINGER, &lg, sizeof(lg));
+		close(x.c.fd);
+		x.c.fd = -1;
+	}
+	for (;;) {
+		nng_msg *m;
+		if (nrx >= nexp) nng_socket_set_ms(x.c.sock, NNG_OPT_RECVTIMEO, 60);
+		if (nng_recvmsg(x.c.sock, &m, 0) != 0) break;
+		print_msg(m, rawhdr);
+		nng_msg_free(m);
+		if (++nrx > nexp + 8) break;
+	}
+	int    closed = -1;
+	size_t extra  = 0;
+	if (x.c.fd < 0) {
+		closed = 1;
+		usleep(30000);
+	} else if (strchr(fl, 'w')) {
+		closed = raw_wait_closed(x.c.fd, 400, &extra);
+	}
+	printf("end n=%d closed=%d\n", nrx, closed);
+	if (doctl) {
+		if (closed != 1 && (single_pipe_proto(proto) || role == 'd')) {
+			printf("ctl skipped\n");
+		} else {
+			int     fd2 = -1, ok = 0, negok = 0;
+			uint8_t hdr[8] = { 0, 'S', 'P', 0, (uint8_t) (peer >> 8), (uint8_t) peer, 0, 0 };
+			// the listener pauses 100 ms after some failed accepts: be patient
+			for (int attempt = 0; attempt < 3 && fd2 < 0; attempt++) {
+				fd2 = sess_second(&x);
+				if (fd2 < 0) usleep(100000);
+			}
+			if (fd2 >= 0) {
+				uint8_t in[8];
+				raw_write_all(fd2, hdr, 8);
+				negok = raw_read_n(fd2, in, 8, 2500) == 8;
+				if (negok && cl > 0) {
+					uint8_t fr[9 + 8];
+					size_t  hl = 0;
+					if (strcmp(tran, "ipc") == 0) fr[hl++] = 1;
+					for (int i = 7; i >= 0; i--) fr[hl++] = (uint8_t) (((uint64_t) cl) >> (8 * i));
+					raw_write_all(fd2, fr, hl);
+					raw_write_all(fd2, ctl, cl);
+					nng_socket_set_ms(x.c.sock, NNG_OPT_RECVTIMEO, 2500);
+					for (int k = 0; k < 4 && !ok; k++) {
+						nng_msg *m;
+						if (nng_recvmsg(x.c.sock, &m, 0) != 0) break;
+						ok = 1; // a message arrived over the control connection
+						nng_msg_free(m);
+					}
+				} else if (negok) {
+					ok = 1;
+				}
+				close(fd2);
+			}
+			printf("ctl ok=%d\n", ok);
+			if (!ok) printf("diag ctl fd=%d negok=%d\n", fd2, negok);
+		}
+	}
+	printf("diag cpu_ms=%.0f wall_ms=%.0f\n", cpu_ms() - cpu0, now_ms() - t0);
+	if (x.lfd >= 0) close(x.lfd);
+	conn_close(&x.c);
+out:
+	free(st);
+	free(ctl);
+}
+
+// ------------------------------------------------------------------ SP / UDP
+// udp <proto> <dgramhex,dgramhex,...> <nexp>
+// an nng listener on udp://127.0.0.1:0; one raw UDP socket sends the datagrams
+// in order, collecting the replies (30 ms after each); prints replies and what
+// the application receives
+static void
+do_udp(char **tok)
+{
+	nng_socket   s;
+	nng_listener l;
+	int          rv, port = 0, nexp = atoi(tok[3]), nrx = 0;
+	double       cpu0 = cpu_ms();
+	if ((rv = open_proto(tok[1], &s)) != 0) {
+		printf("fail open rv=%d\n", rv);
+		return;
+	}
+	nng_socket_set_ms(s, NNG_OPT_RECVTIMEO, 300);
+	if ((rv = nng_listener_create(&l, s, "udp://127.0.0.1:0")) != 0 || (rv = nng_listener_start(l, 0)) != 0 ||
+	    (rv = nng_listener_get_int(l, NNG_OPT_BOUND_PORT, &port)) != 0) {
+		printf("fail listen rv=%d\n", rv);
+		nng_socket_close(s);
+		return;
+	}
+	int                fd = socket(AF_INET, SOCK_DGRAM, 0);
+	struct sockaddr_in sa = { .sin_family = AF_INET, .sin_port = htons((uint16_t) port) };
+	sa.sin_addr.s_addr    = htonl(INADDR_LOOPBACK);
+	connect(fd, (struct sockaddr *) &sa, sizeof(sa));
+	char *sp = NULL, *copy = strdup(tok[2]);
+	for (char *t = strtok_r(copy, ",", &sp); t != NULL; t = strtok_r(NULL, ",", &sp)) {
+		size_t   dl;
+		uint8_t *d = unhex(t, &dl);
+		send(fd, d, dl, 0);
+		free(d);
+		for (;;) {
+			struct pollfd pfd = { .fd = fd, .events = POLLIN };
+			uint8_t       in[70000];
+			if (poll(&pfd, 1, 40) <= 0) break;
+			ssize_t r = recv(fd, in, sizeof(in), 0);
+			if (r < 0) break;
+			printf("reply ");
+			puthex(in, (size_t) r);
+			printf("\n");
+		}
+		for (;;) {
+			nng_msg *m;
+			nng_socket_set_ms(s, NNG_OPT_RECVTIMEO, 25);
+			if (nng_recvmsg(s, &m, 0) != 0) break;
+			print_msg(m, 0);
+			nng_msg_free(m);
+			if (++nrx > nexp + 8) break;
+		}
+	}
+	free(copy);
+	printf("end n=%d\n", nrx);
+	printf("diag cpu_ms=%.0f\n", cpu_ms() - cpu0);
+	close(fd);
+	nng_socket_close(s);
+}
+
+// wshs <headhex> <cuts> <flags>
+// an nng pair0 socket listening on ws://; the raw peer sends arbitrary bytes
+// where the HTTP upgrade request belongs (flags: c = half-close afterwards),
+// then a second, well-behaved WebSocket connection must still be served
+static void
+do_wshs(char **tok)
+{
+	nng_socket   s;
+	nng_listener l;
+	int          port = 0, rv, one = 1;
+	size_t       hl, cuts[64];
+	uint8_t     *h  = unhex(tok[1], &hl);
+	int          nc = parse_list(tok[2], cuts, 64);
+	double       cpu0 = cpu_ms();
+	if ((rv = nng_pair0_open(&s)) != 0) {
+		printf("fail open rv=%d\n", rv);
+		free(h);
+		return;
+	}
+	nng_socket_set_ms(s, NNG_OPT_RECVTIMEO, 2000);
+	if ((rv = nng_listener_create(&l, s, "ws://127.0.0.1:0/")) != 0 || (rv = nng_listener_start(l, 0)) != 0 ||
+	    (rv = nng_listener_get_int(l, NNG_OPT_BOUND_PORT, &port)) != 0) {
+		printf("fail listen rv=%d\n", rv);
+		nng_socket_close(s);
+		free(h);
+		return;
+	}
+	struct sockaddr_in sa = { .sin_family = AF_INET, .sin_port = htons((uint16_t) port) };
+	sa.sin_addr.s_addr    = htonl(INADDR_LOOPBACK);
+	int fd                = socket(AF_INET, SOCK_STREAM, 0);
+	setsockopt(fd, IPPROTO_TCP, TCP_NODELAY, &one, sizeof(one));
+	if (connect(fd, (struct sockaddr *) &sa, sizeof(sa)) != 0) {
+		printf("fail connect\n");
+	} else {
+		uint8_t in[2048];
+		raw_write_cut(fd, h, hl, cuts, nc);
+		if (strchr(tok[3], 'c')) shutdown(fd, SHUT_WR);
+		struct pollfd pfd = { .fd = fd, .events = POLLIN };
+		ssize_t       r   = -1;
+		if (poll(&pfd, 1, 150) > 0) r = recv(fd, in, sizeof(in) - 1, 0);
+		if (r >= 12) printf("diag status=%.3s\n", (char *) in + 9);
+		else printf("diag status=none r=%zd\n", r);
+	}
+	// the control connection
+	{
+		int      fd2 = socket(AF_INET, SOCK_STREAM, 0), ok = 0;
+		uint8_t  head[4096];
+		size_t   tot = 0, rl;
+		nng_msg *m;
+		setsockopt(fd2, IPPROTO_TCP, TCP_NODELAY, &one, sizeof(one));
+		if (connect(fd2, (struct sockaddr *) &sa, sizeof(sa)) == 0) {
+			int n = snprintf((char *) head, sizeof(head),
+			    "GET / HTTP/1.1\r\nHost: 127.0.0.1:%d\r\nUpgrade: websocket\r\n"
+			    "Connection: Upgrade\r\nSec-WebSocket-Key: dGhlIHNhbXBsZSBub25jZQ==\r\n"
+			    "Sec-WebSocket-Protocol: pair.sp.nanomsg.org\r\nSec-WebSocket-Version: 13\r\n\r\n",
+			    port);
+			raw_write_all(fd2, head, (size_t) n);
+			if ((rl = raw_read_head(fd2, head, sizeof(head) - 1, &tot)) != 0 &&
+			    strncmp((char *) head + 9, "101", 3) == 0) {
+				// one masked binary frame "ok"
+				uint8_t fr[] = { 0x82, 0x82, 1, 2, 3, 4, 'o' ^ 1, 'k' ^ 2 };
+				raw_write_all(fd2, fr, sizeof(fr));
+				if (nng_recvmsg(s, &m, 0) == 0) {
+					ok = nng_msg_len(m) == 2 && memcmp(nng_msg_body(m), "ok", 2) == 0;
+					nng_msg_free(m);
+				}
+			}
+		}
+		printf("ctl ok=%d\n", ok);
+		close(fd2);
+	}
+	printf("diag cpu_ms=%.0f\n", cpu_ms() - cpu0);
+	if (fd >= 0) close(fd);
+	nng_socket_close(s);
+	free(h);
+}
+
 int
 main(int argc, char **argv)
 {
@@ -1064,6 +1449,12 @@ main(int argc, char **argv)
 			do_tx(tok);
 		} else if (strcmp(op, "inproc") == 0 && nt >= 3) {
 			do_inproc(tok);
+		} else if (strcmp(op, "sess") == 0 && nt >= 12) {
+			do_sess(tok);
+		} else if (strcmp(op, "wshs") == 0 && nt >= 4) {
+			do_wshs(tok);
+		} else if (strcmp(op, "udp") == 0 && nt >= 4) {
+			do_udp(tok);
 		} else if (strcmp(op, "wsrx") == 0 && nt >= 7) {
 			do_wsrx(tok);
 		} else if (strcmp(op, "wstx") == 0 && nt >= 5) {
